@@ -132,6 +132,16 @@ def check_case(case):
         if r2 is not False:
             raise Violation('verify/%s-true' % tag, 'VerifyMessage returned %r for %s' % (r2, tag))
         cls.append('neg:' + tag)
+    if len(mb) != len(text):
+        # a DIFFERENT str that merely spells the UTF-8 bytes of the signed text as lone surrogates (what os.fsdecode / the
+        # 'surrogateescape' handler produce): not encodable as text (UnicodeError), or a message the signature does not cover
+        t_sur = mb.decode('ascii', 'surrogateescape')
+        rm = libx.call('message-surrogates', BitcoinMessage, t_sur, allowed=(UnicodeError,))
+        if rm[0] == 'ok':
+            r2 = libx.call('verifymessage-surrogates', VerifyMessage, P2PKHBitcoinAddress(own), rm[1], sig, allowed=(UnicodeError,))
+            if r2[0] == 'ok' and r2[1] is not False:
+                raise Violation('verify/msg-surrogate-spelling-true', 'VerifyMessage returned %r for a different string (lone surrogates spelling the signed bytes)' % (r2[1],))
+        cls.append('neg:surrogates')
     for tag, addr in others_same_hash:
         r2 = libx.call('verifymessage-' + tag, VerifyMessage, CBitcoinAddress(addr), msg, sig)[1]
         if r2 is not False:
